@@ -569,6 +569,17 @@ def witness_search(tier, seed):
         mp = SimfilePack("p", filesystem=mem)
         if list(mp.simfile_dir_paths) != ["p/s"] or [s_.title for s_ in mp.simfiles()] != ["m"]:
             return dict(input="in-memory pack p/s/y.Sm + p/file.ssc", detail=f"lists {mp.simfile_dir_paths}")
+        for order in (["a.sm", "b.ssc", "c.SSC"], ["a.ssc", "b.sm", "c.SM"]):
+            mem2 = MemoryFS()
+            mem2.makedirs("d")
+            for nm in order:
+                mem2.writetext("d/" + nm, "#TITLE:x;")
+            lst = mem2.listdir("d")
+            try:
+                SimfileDirectory("d", filesystem=mem2)
+                return dict(input=f"listing {lst}", detail="two files of one kind and no DuplicateSimfileError")
+            except DuplicateSimfileError:
+                pass
         open(os.path.join(pack, "song1", "b.sm"), "w").write("#TITLE:two;")
         try:
             SimfileDirectory(os.path.join(pack, "song1"))
